@@ -18,6 +18,9 @@ def scenarios(tmp):
     with open(src, "w") as f:
         f.write("add rax, rbx\nsub rax, rcx\nret\n")
     out = os.path.join(tmp, "out.bin")
+    bigsrc = os.path.join(tmp, "big.asm")
+    with open(bigsrc, "w") as f:
+        f.write(BIG)
     S = {
         "S1-caller-buffer": ["c256:p:cc", "A" + hexec.esc(EARLY), "A" + hexec.esc("add rax, rbx\n"), "o0", "G", "d"],
         "S2-internal-growth": ["i", "A" + hexec.esc(EARLY), "A" + hexec.esc(BIG), "o2", "G", "d"],
@@ -26,6 +29,13 @@ def scenarios(tmp):
         "S3-file": ["i", "A" + hexec.esc(EARLY), "f" + hexec.esc(src), "o2", "G", "d"],
         "S4-file-counting": ["c256:p:cc", "A" + hexec.esc(EARLY), "n4:" + hexec.esc(src), "o2", "G", "d"],
         "S5-bin-file": ["i", "A" + hexec.esc(EARLY), "A" + hexec.esc(BIG), "B" + hexec.esc(out), "G", "d"],
+        # growth while chunk fitting pads, growth from inside the file entry point, growth during a counting call, and binary
+        # output before and after growth
+        "S6-fitting-growth": ["i", "k16", "A" + hexec.esc(EARLY), "A" + hexec.esc(BIG), "o2", "G", "d"],
+        "S7-file-growth": ["i", "A" + hexec.esc(EARLY), "f" + hexec.esc(bigsrc), "o2", "G", "d"],
+        "S8-counting-growth": ["i", "A" + hexec.esc(EARLY), "N16:" + hexec.esc(BIG), "o2", "G", "d"],
+        "S9-bin-file-twice": ["i", "A" + hexec.esc(EARLY), "B" + hexec.esc(out), "A" + hexec.esc(BIG), "B" + hexec.esc(out), "G",
+                              "d"],
     }
     return S, out
 
@@ -109,7 +119,8 @@ def judge(name, ops, ref_obs, ref_calls, plan_idx, obs, filedata, ref_file):
             off = int(f[2]) if len(f) > 2 and f[2].lstrip("-").isdigit() else -1
             if i in demanded and ret == 0:
                 disc.add("binfile-success-despite-refusal")
-            if ret == 0:
+            last_b = max(k for k, x in enumerate(ops, start=1) if x[0] == "B")
+            if ret == 0 and i == last_b:      # (the file is read back once, after the whole history: an earlier output was replaced)
                 # success is only allowed if the file holds exactly code[0, offset); the code is reported by the G step
                 g = next((x for x in obs[i + 1:] if x.startswith("G:")), "")
                 gf = g.split(":")
@@ -143,7 +154,8 @@ def run(tier, seed):
     tmp = hexec.tmpdir()
     try:
         S, out = scenarios(tmp)
-        rep.rule = ("5 API scenarios (caller buffer; internal buffer growing twice; file assembly; file counting; binary output); "
+        rep.rule = ("10 API scenarios (caller buffer; internal buffer growing twice, with retry, under chunk fitting, from the file entry point, "
+                    "in a counting call; file assembly; file counting; binary output once and twice); "
                     "the library-side libc calls (malloc mmap mremap munmap open fstat close fopen fwrite fclose) of each are "
                     "recorded through -Wl,--wrap interposers, then the scenario is re-run once for EVERY call index refused "
                     "(quick) and for EVERY ordered pair of refused indices (thorough), plus short-write variants of fwrite; each "
